@@ -548,6 +548,8 @@ class DEVSSimulator(Simulator[TIME], Generic[TIME]):
         
     def schedule_event(self, event: SimEventInterface) -> SimEventInterface:
         """schedule the provided event on the event list"""
+        if event.time != event.time:
+            raise DSOLError("cannot schedule event at a time that is NaN")
         if event.time < self._simulator_time:
             raise DSOLError("cannot schedule event in the past")
         self._eventlist.add(event)
